@@ -333,6 +333,8 @@ def make_machine(col, stage, tier, checks, profile=None, max_conns=3, kinds=('me
             self.burst0 = d.int(1, 6) if d.chance(0.25) else 0     # messages carrying the very time of the first one
 
         def _step(self, data, kind):
+            if self.tr is None:
+                return          # the run ended with a crash that was reported
             d = Draw(data)
             g = d.choice(self.gens)
             if self.case['specs'] and len(self.case['specs']) > self.burst0:
@@ -342,7 +344,20 @@ def make_machine(col, stage, tier, checks, profile=None, max_conns=3, kinds=('me
             m['t_us'] = self.t
             self.case['specs'].append(m)
             n0 = len(self.res.discs)
-            msg, rec = self.tr.apply(m)
+            try:
+                msg, rec = self.tr.apply(m)
+            except Exception as e:
+                # an exception with a frame inside the repository is the tool's (a discrepancy), anything else is ours
+                frames = env.repo_frames(e.__traceback__)
+                if not frames:
+                    raise
+                f = frames[-1]
+                self.res.bad('crash:%s@%s:%s' % (type(e).__name__, f[0], f[2]), '%s: %s at %s:%d on %s' % (type(e).__name__, e, f[0], f[1], self.tr.lines[-1]))
+                self.reported = True
+                stage.finish(self.case, self.res)
+                col.add(stage, self.case, self.res)
+                self.tr = None
+                return
             for chk in checks:
                 chk(self.tr, msg, rec, self.res)
             if col.shrink_bucket is not None and any(b == col.shrink_bucket for b, _ in self.res.discs[n0:]):
